@@ -79,7 +79,12 @@ def senc(s):
 INF = float('inf')
 NAN = float('nan')
 
-NUMS = [0.0, -0.0, 1.0, -1.0, 2.0, 0.5, -0.5, 3.0, 10.0, 1e300, NAN, INF, -INF]
+NUMS = [0.0, -0.0, 1.0, -1.0, 2.0, 0.5, -0.5, 3.0, 10.0, 1e300, NAN, INF, -INF,
+        # boundaries of the integer types a conversion might go through, both sides; the smallest and other tiny
+        # non-zero magnitudes; a sum that is not what it looks like; whole numbers whose shortest decimal rendering is
+        # not their exact expansion
+        2.0 ** 31, 2.0 ** 32, 2.0 ** 53, 2.0 ** 53 + 2, 2.0 ** 60, 2.0 ** 63, 2.0 ** 63 + 2048, -2.0 ** 63, 2.0 ** 64, 1e19, 1e21,
+        1.2345678901234568e17, 255.0, 256.0, 65536.0, 5e-324, 1e-300, 2.2e-17, -1e-20, 0.30000000000000004]
 STRS = ['', '0', '1', ' 1', '1e3', 'abc', 'true', '-0', 'inf', 'nan', '0.5', 'éΩ']
 # arrays as (seq, dict) of encodings
 ARRS = [
@@ -94,6 +99,11 @@ ARRS = [
     (['[%s|]' % nenc(1.0)], []),
     ([senc('a')], [('t', senc('x')), ('n', 'u')]),
     ([], [(senc('a'), nenc(1.0)), (senc('b'), nenc(2.0)), (senc('c'), nenc(3.0))]),
+    # different key sets of equal size, keys holding mysterious (an absent key also READS as mysterious)
+    ([], [(senc('k'), 'u'), (senc('j'), nenc(1.0))]),
+    ([], [(senc('j'), nenc(1.0)), (senc('m'), nenc(2.0))]),
+    ([], [(senc('k'), 'u')]),
+    ([], [(senc('m'), 'u')]),
     ([nenc(NAN)], []),                                   # an array is not equal to itself when it holds a NaN
     ([nenc(1.0)], [(senc('k'), nenc(NAN))]),
     (['[%s|]' % nenc(NAN)], []),
